@@ -111,8 +111,15 @@ func blockedIn(st gState) (string, bool) {
 			} else if j := strings.LastIndexByte(f, '('); j > 0 {
 				f = f[:j]
 			}
-			return f + ":" + st.Wait, true
+			// only the synchronisation of the engine, its sessions and streams counts; a wait below any
+			// other lungo function (reflection caches, option merging, BSON registries: runtime-internal
+			// locks that are taken for an instant) is transient, not a blocked actor
+			if strings.HasPrefix(f, "(*Engine)") || strings.HasPrefix(f, "(*Session)") || strings.HasPrefix(f, "(*Stream)") {
+				return f + ":" + st.Wait, true
+			}
+			return "", false
 		}
 	}
-	return site + ":" + st.Wait, true
+	_ = site
+	return "", false
 }
